@@ -213,6 +213,16 @@ class SSHSOCKSForwarder(SSHLocalForwarder):
         self._send_socks5_ok()
         self._connect()
 
+    def eof_received(self) -> bool:
+        """Handle an incoming end of file from the SOCKS client"""
+
+        if self._recv_handler:
+            # The client went away before completing its SOCKS request
+            self.close()
+            return False
+
+        return super().eof_received()
+
     def close(self) -> None:
         """Close this SOCKS forwarder, ending any request parsing"""
 
